@@ -261,26 +261,26 @@ trait WriteDesc<T>: Sized {
     fn write_desc(&self, _: T) -> Result<u32>;
 }
 
-fn read_desc<R: Read>(reader: &mut R) -> Result<(u8, u32)> {
+/// Read a descriptor header; neither the header itself nor the reported size reach beyond
+/// `end` (a descriptor cannot reach beyond the descriptor or box that contains it).
+fn read_desc_within<R: Read + Seek>(reader: &mut R, end: u64) -> Result<(u8, u32)> {
+    let mut remaining = end.saturating_sub(reader.stream_position()?);
     let tag = reader.read_u8()?;
+    remaining = remaining.saturating_sub(1);
 
     let mut size: u32 = 0;
     for _ in 0..4 {
+        if remaining == 0 {
+            break;
+        }
         let b = reader.read_u8()?;
+        remaining -= 1;
         size = (size << 7) | (b & 0x7F) as u32;
         if b & 0x80 == 0 {
             break;
         }
     }
 
-    Ok((tag, size))
-}
-
-/// Read a descriptor header; the reported size is limited to what is left before `end`
-/// (a descriptor cannot reach beyond the descriptor or box that contains it).
-fn read_desc_within<R: Read + Seek>(reader: &mut R, end: u64) -> Result<(u8, u32)> {
-    let (tag, size) = read_desc(reader)?;
-    let remaining = end.saturating_sub(reader.stream_position()?);
     Ok((tag, (size as u64).min(remaining) as u32))
 }
 
